@@ -5,7 +5,7 @@ import ast
 from typing import Any, Dict, List, Optional, Set, Tuple
 
 from ..core import AnalysisError, Report
-from ..pyfacts import Repo, ancestors, calls, dotted, enclosing_func, norm, param_names, walk_no_nested
+from ..pyfacts import Repo, cc, cn, ancestors, calls, dotted, enclosing_func, norm, param_names, walk_no_nested
 
 PARSER = 'flipjump/assembler/fj_parser.py'
 PRE = 'flipjump/assembler/preprocessor.py'
@@ -102,7 +102,7 @@ def rule_globals(rep: Report, repo: Repo) -> None:
                and not any(isinstance(a, ast.For) for a in ancestors(c))]
     rep.check(okf and len(loops) == 2 and not outside, 'C13.GLOBALS', 'current-file assigned by the loops', f'{len(loops)} loops bind curr_file; readers outside a loop: {outside}',
               f'{PARSER}:{pf.lineno}')
-    guard = any(isinstance(n, ast.If) and norm(n.test) == 'not input_files' and isinstance(n.body[0], ast.Raise) for n in pm.body)
+    guard = any(isinstance(n, ast.If) and cn(n.test) in (cc('not input_files'), cc('len(input_files) == 0')) and isinstance(n.body[0], ast.Raise) for n in pm.body)
     rep.check(guard, 'C13.GLOBALS', 'non-empty file list', 'an empty list is rejected, so the loops run at least once before exit_if_errors reads curr_file', f'{PARSER}:{pm.lineno}')
 
 
